@@ -11,9 +11,9 @@ def check(run):
                        "closed polyhedron ...); PolyTrace.tla computes from the pre-state whether the call must be rejected and requires the "
                        "documented std::invalid_argument with every slot unchanged, and no exception otherwise; a case is one call, distinct = "
                        "(operation, exception, status line)")
-    plans = [dict(maxlen=9, maxdim=2, ill=35, coef=2, num=(3000 if q else 50000), recipe=True),
-             dict(maxlen=12, maxdim=2, ill=35, coef=2, num=(1500 if q else 20000)),
-             dict(maxlen=10, maxdim=3, ill=35, coef=2, num=(900 if q else 12000))]
+    plans = [dict(maxlen=9, maxdim=2, ill=35, coef=2, num=(3000 if q else 15000), recipe=True),
+             dict(maxlen=12, maxdim=2, ill=35, coef=2, num=(1500 if q else 6000)),
+             dict(maxlen=10, maxdim=3, ill=35, coef=2, num=(900 if q else 4000))]
     polylib.model_pass(run, ['PolyWorld1.cfg'])
     polylib.run_pool(run, "C14", plans, ("C14:",))
     from . import faultlib
